@@ -82,27 +82,30 @@ Fixpoint uri_decode_loop (fuel : nat) (buf : bytes) : dres :=
     | [] => DOk []
     | _ =>
       let '(tok, rest) := span not_percent buf in
-      match rest with
-      | 37 :: r =>
-        match tok_int64 16 false 1 r with
-        | Some (h1, n1) =>
-          let r1 := dropN n1 r in
-          match tok_int64 16 false 1 r1 with
-          | Some (h2, n2) =>
-            let ch := Z.to_N ((Z.lor (Z.shiftl h1 4) h2) mod 256) in
-            match uri_decode_loop f (dropN n2 r1) with
-            | DOk o => DOk (tok ++ ch :: o)
-            | e => e
-            end
-          | None => DBad
-          end
-        | None => DBad
-        end
-      | _ =>
+      let continue_ :=                                   (* nothing to skip: next turn (atEnd ends it) *)
         match uri_decode_loop f rest with
         | DOk o => DOk (tok ++ o)
         | e => e
-        end
+        end in
+      match rest with
+      | [] => continue_
+      | p :: r =>
+        if p =? 37 then                                  (* tok.skip('%') *)
+          match tok_int64 16 false 1 r with
+          | Some (h1, n1) =>
+            let r1 := dropN n1 r in
+            match tok_int64 16 false 1 r1 with
+            | Some (h2, n2) =>
+              let ch := Z.to_N ((Z.lor (Z.shiftl h1 4) h2) mod 256) in
+              match uri_decode_loop f (dropN n2 r1) with
+              | DOk o => DOk (tok ++ ch :: o)
+              | e => e
+              end
+            | None => DBad
+            end
+          | None => DBad
+          end
+        else continue_
       end
     end
   end.
